@@ -5,6 +5,7 @@
 package tree
 
 import (
+	"net/http"
 	"slices"
 	"strings"
 
@@ -154,6 +155,23 @@ func (n *node[T]) find(pattern string) *node[T] {
 	}
 
 	return nil
+}
+
+// 是否为 Tree.methods 中统计的请求方法，自动生成的 HEAD、OPTIONS 和 405 不在统计范围之内。
+func isCountedMethod(m string) bool {
+	return m != methodNotAllowed && m != http.MethodHead && m != http.MethodOptions
+}
+
+// 统计所有子节点上各个请求方法的数量
+func (n *node[T]) countMethods(methods map[string]int) {
+	for _, c := range n.children {
+		for m := range c.handlers {
+			if isCountedMethod(m) {
+				methods[m]++
+			}
+		}
+		c.countMethods(methods)
+	}
 }
 
 // 清除路由项
